@@ -675,7 +675,13 @@ class ExpressionValue(Value):
 
     def calculate_address_offset(self, statements):
         address_index = self.left.int if self.left.is_address() else self.right.int
-        additional_value = self.left.int if self.left.is_numeric() else self.right.int
+        other_value = self.right if self.left.is_address() else self.left
+        if other_value.is_address():
+            additional_value = statements[other_value.int].code_pkg.address.int
+        elif other_value.is_numeric():
+            additional_value = other_value.int
+        else:
+            raise ValueTypeError("[{}] unresolved expression".format(self.original_value))
         address = statements[address_index].code_pkg.address.int
         if self.operation == "+":
             return NumericValue(address + additional_value, size_hint=4, mode=ExplicitAddressingMode.EXTENDED)
